@@ -1633,6 +1633,9 @@ impl Reference
 				}
 				ReferenceStep::Autodeslice { offset: 0 } =>
 				{
+					// Once we take the data pointer out of a parameter slice,
+					// later pointers do need to be dereferenced.
+					is_immediate_parameter = false;
 					if indices.is_empty()
 					{
 						addr = unsafe {
